@@ -628,7 +628,8 @@ func genRandom(s *sink, quick bool) {
 // min, max -- on the subset where spec.md follows Python 3 (no format specs,
 // no !r / %r whose string quoting differs).  CPython is the only oracle.
 func genPyOnly(s *sink, quick bool) {
-	s.coqEvery["pyonly:format"] = 3 // string.format has a Coq model and specification now (Format.v, FormatSpec.v)
+	// string.format and % have a Coq model and specification (Format.v / FormatSpec.v, Interp.v / InterpSpec.v)
+	s.coqEvery["pyonly:format"], s.coqEvery["pyonly:%"] = 3, 3
 	vals := []V{vInt(0), vInt(-7), vInt(42), vStr(""), vStr("ab"), vNone(), vBool(true), intList(1, 2), vTuple(vInt(1), vInt(2)), vTuple()}
 	fmts := []string{"", "{}", "a{}b", "{}{}", "{0}{0}", "{1}{0}", "{0}-{1}-{0}", "{{}}", "{{{}}}", "{", "}", "{}{0}", "{0}{}", "{2}", "x{}y{}z{}", "{ }", "{-1}", "{a}", "{0.x}", "{:d}x"}
 	for _, f := range fmts {
@@ -862,9 +863,9 @@ func genFormat(s *sink, quick bool) {
 	// every n-th format case is also evaluated in Coq: model (Format.v) and specification
 	// (FormatSpec.v) of string.format, with the observed str / repr texts of its arguments
 	if quick {
-		s.coqEvery["format"] = 8
+		s.coqEvery["format"], s.coqEvery["interp"] = 8, 16
 	} else {
-		s.coqEvery["format"] = 40
+		s.coqEvery["format"], s.coqEvery["interp"] = 40, 60
 	}
 	segs := []string{"{}", "{0}", "{1}", "{a}", "{b}", "{!r}", "{!s}", "{0!r}", "{1!s}", "{a!r}", "{b!s}", "{:}", "{!r:}", "{:x}", "{!x}", "{!}",
 		"{a.b}", "{a[0]}", "{ }", "{{", "}}", "x", "-", "{", "}", "{2}", "{00}"}
